@@ -112,6 +112,25 @@ def bounded_checks(sess: Session):
         sess.violation_direct('wn._add._batch:partition', 'batches do not partition the input',
                               {'witness': bad[0]}, True, functions=('wn._add._batch',))
     collect_frames_bounded(sess)
+    order_bounded(sess)
+
+
+def order_bounded(sess: Session):
+    """The queries for tags, pronunciations, examples, counts and definitions have no ORDER BY: that they report document
+    order rests on SQLite returning the rows of one parent in insertion order (trusted, A-SQLITE) - which also depends
+    on the indexes schema.sql declares.  Observed here on a real database: one document whose repeated children are not
+    in sorted order and contain repeats."""
+    from bounded import order_doc
+    bad = order_doc.check()
+    sess.add_bounded('wn.add + Form.tags / pronunciations, Sense.examples / counts, Synset.examples / definition, '
+                     'Word.forms / senses (document order, repeats kept)', 'one document: 3 forms with 0-5 tags and 0-4 '
+                     'pronunciations, 3 senses with 0-4 examples and counts, 3 synsets with 0-4 examples, 0-2 definitions; '
+                     'none of the lists sorted, each with a repeat', 1, 'real add() to a real database, public API', not bad)
+    if bad:
+        sess.violation_direct('wn.add/query:document-order', f'{bad[0][0]} reports {bad[0][1]}, the document has '
+                              f'{bad[0][2]}', {'witness': [list(b) for b in bad[:4]]}, True,
+                              functions=('wn._queries.get_form_tags', 'wn._queries.get_form_pronunciations',
+                                         'wn._queries.get_examples', 'wn._queries.get_sense_counts'))
 
 
 def collect_frames_bounded(sess: Session):
